@@ -210,9 +210,9 @@ def eval_dyad_adverb_iterate(f, a, b):
         Example: 3{1,x}:*[]  -->  [1 1 1]
 
     """
-    while not safe_eq(a, 0):
+    # the count may be a computed value (a NumPy integer), which never compares safe_eq to 0
+    for _ in range(int(a)):
         b = f(b)
-        a = a - 1
     return b
 
 
@@ -421,13 +421,13 @@ def eval_adverb_scan_iterating(f, a, b, backend):
         Example: 3{1,x}\*[]  -->  [[] [1] [1 1] [1 1 1]]
 
     """
-    if safe_eq(a,0):
+    a = int(a)  # the count may be a computed value (a NumPy integer)
+    if a == 0:
         return b
     r = [b]
-    while not safe_eq(a, 0):
+    for _ in range(a):
         b = f(b)
         r.append(b)
-        a = a - 1
     return backend.kg_asarray(r)
 
 
